@@ -49,7 +49,8 @@ BatchAddOutcomes(st, joins) ==
 
 ReserveOutcomes(st, id, seat, chips) ==
   IF id \in MIds(st)
-  THEN {MR("ok", [st EXCEPT !.players[MIdx(st, id)].bank = @ + chips, !.sm = SetChipsF(st.sm, id, TRUE).st])}      \* re-buy
+  THEN {MR("ok", [st EXCEPT !.players[MIdx(st, id)].bank = @ + chips,
+                           !.sm = SetChipsF(st.sm, id, st.players[MIdx(st, id)].bank + chips > 0).st])}      \* re-buy
   ELSE IF Len(st.players) = st.n THEN {MR("ErrTableNoEmptySeats", st)}
   ELSE BatchAddOutcomes(st, <<[id |-> id, seat |-> seat, chips |-> chips]>>)
 
